@@ -405,11 +405,22 @@ class Graph:
         # (snapshot / restore of every object's attribute dictionary rather than copy.deepcopy: tensors that
         # carry an autograd graph cannot be deep-copied; getters only rebind attributes)
         snap = [dict(vars(o)) for o in self.nodes]
+        # private helper objects that hold a node's state (e.g. a dataclass with the cached value and its flag) are
+        # snapshotted one level down as well
+        inner = []
+        for o in self.nodes:
+            for v in vars(o).values():
+                if (id(v) not in self.idx and hasattr(v, "__dict__") and not isinstance(v, type)
+                        and type(v).__module__.startswith("torchtree")):
+                    inner.append((v, dict(vars(v))))
 
         def restore():
             for o, d in zip(self.nodes, snap):
                 vars(o).clear()
                 vars(o).update(d)
+            for v, d in inner:
+                vars(v).clear()
+                vars(v).update(d)
 
         try:
             got = self.eval_all()
